@@ -39,6 +39,7 @@ func init() {
 			{ID: "C05-R13", Title: "the compiler does not write into the syntax tree", Floor: 1, Run: theCompilerDoesNotWriteIntoTheSyntaxTree},
 			{ID: "C05-R14", Title: "entries made on the way are withdrawn with their cause", Floor: 2, Run: entriesMadeOnTheWayAreWithdrawnWithTheirCause},
 			{ID: "C05-R15", Title: "hash keys carry the payload itself (shared with C15-R3)", Floor: 3, Run: c15r3},
+			{ID: "C05-R16", Title: "objects kept in process-wide tables are written only while they are built (shared with C08-R8)", Floor: 5, Run: cachedObjectsImmutable},
 		},
 	})
 }
@@ -539,6 +540,64 @@ func (k *c05) classify(pk *packages.Package, fd *ast.FuncDecl, body *ast.BlockSt
 		})
 		return ok
 	}
+	// keyInjective: e is the range key, or made from it in a way that gives
+	// different keys different values (a conversion, a constant prefix or
+	// suffix, a composite with the key in it).  Two iterations then write
+	// different entries.  A function of the key (filepath.Clean(k),
+	// strings.ToLower(k)) may send two keys to one entry, and which of them
+	// stays is decided by the order of the iteration.
+	var keyInjective func(e ast.Expr, depth int) bool
+	keyInjective = func(e ast.Expr, depth int) bool {
+		if depth > 4 {
+			return false
+		}
+		switch x := ast.Unparen(e).(type) {
+		case *ast.Ident:
+			o := info.Uses[x]
+			if o == nil {
+				return false
+			}
+			if o == keyObj {
+				return true
+			}
+			if localObjs[o] && o != valObj && len(assigns[o]) > 0 {
+				for _, r := range assigns[o] {
+					if !keyInjective(r, depth+1) {
+						return false
+					}
+				}
+				return true
+			}
+			return false
+		case *ast.CallExpr:
+			if tv, ok := info.Types[x.Fun]; ok && tv.IsType() && len(x.Args) == 1 {
+				return keyInjective(x.Args[0], depth+1)
+			}
+			return false
+		case *ast.BinaryExpr:
+			if x.Op != token.ADD {
+				return false
+			}
+			if tv, ok := info.Types[x.X]; ok && tv.Value != nil {
+				return keyInjective(x.Y, depth+1)
+			}
+			if tv, ok := info.Types[x.Y]; ok && tv.Value != nil {
+				return keyInjective(x.X, depth+1)
+			}
+			return false
+		case *ast.CompositeLit:
+			for _, el := range x.Elts {
+				if kv, ok := el.(*ast.KeyValueExpr); ok {
+					el = kv.Value
+				}
+				if keyInjective(el, depth+1) {
+					return true
+				}
+			}
+			return false
+		}
+		return false
+	}
 	rootLocal := func(e ast.Expr) bool { // lvalue rooted at an iteration-local object (element field stores)
 		for {
 			switch x := ast.Unparen(e).(type) {
@@ -689,7 +748,11 @@ func (k *c05) classify(pk *packages.Package, fd *ast.FuncDecl, body *ast.BlockSt
 						}
 						if t != nil {
 							if _, isMap := t.Underlying().(*types.Map); isMap {
-								if keyDerived(lx.Index, 0) || guardKeyEq {
+								if keyInjective(lx.Index, 0) || guardKeyEq {
+									continue
+								}
+								if keyDerived(lx.Index, 0) {
+									bad("map store " + exprStr(lx) + " whose key is a function of the range key that may give two keys the same entry (which of them stays is decided by the order of the iteration)")
 									continue
 								}
 								bad("map store " + exprStr(lx) + " whose key is not derived from the range key alone (collisions are last-writer-wins)")
